@@ -19,7 +19,8 @@ invariant("Queue", "wellformed",
           "and self._read_mutex._notification is not self._notification", props=["C10"])
 # only the holder of the read mutex ever waits for a message
 invariant("Queue", "single_reader",
-          "forall(self._notification._waiting, lambda w: w[0] is self._read_mutex._owner) and len(self._notification._waiting) <= 1",
+          "forall(self._notification._waiting, lambda w: w[0] is self._read_mutex._owner) and len(self._notification._waiting) <= 1 "
+          "and implies(len(self._notification._waiting) > 0, self._notification._waiting[0][0] is self._read_mutex._owner)",
           props=["C10"])
 
 contract("usim._basics.streams.Queue.__init__",
@@ -43,6 +44,8 @@ contract("usim._basics.streams.Queue.put",
          ensures=["loop.activity is me"],
          on_signal=["loop.activity is me"], on_close=[],
          on_exit=[DEAD_NEW],
+         guarantee=["forall(Queue, lambda q: implies(old(q._read_mutex._owner) is not me or old(q._read_mutex._depth) < 1, "
+                    "       len(q._buffer) >= len(old(q._buffer)) and q._buffer[:len(old(q._buffer))] == old(q._buffer)))"],
          props=["C10", "C20"])
 
 contract("usim._basics.streams.Queue.close",
@@ -74,4 +77,10 @@ contract("usim._basics.streams.Queue._await_message",
          # cancelled / interrupted / closed at any suspension: no item is lost or duplicated, the mutex is given up
          on_signal=["self._buffer == at_last_suspension(self._buffer)", "self._read_mutex._owner is not me"],
          on_exit=[DEAD_NEW],
+         guarantee=["forall(Queue, lambda q: implies(old(q._read_mutex._owner) is not me or old(q._read_mutex._depth) < 1, "
+                    "       len(q._buffer) >= len(old(q._buffer)) and q._buffer[:len(old(q._buffer))] == old(q._buffer)))"],
          props=["C10", "C20"])
+
+rely("Queue", [], "self._read_mutex._owner is me and self._read_mutex._depth >= 1",
+     ensures="len(self._buffer) >= len(old(self._buffer)) and self._buffer[:len(old(self._buffer))] == old(self._buffer)",
+     why="guarantee clause of Queue.put/_await_message: only the holder of the read mutex removes items")
